@@ -4,11 +4,31 @@
 // (LibScope) are attributed to the library.  The registry's own storage never
 // goes through operator new.  Single-threaded use only.
 #pragma once
+#include <cerrno>
 #include <cstdint>
+#include <cstdio>
 #include <cstdlib>
 #include <cstring>
 #include <new>
 #include "verif.h"
+
+// With -Wl,--wrap=malloc,--wrap=calloc,--wrap=realloc,--wrap=free (added by the driver for every harness that includes this header) the
+// C allocator calls made by code compiled into this translation unit - string_theory is header-only - go through the same registry and the
+// same fault injector as operator new: an implementation that keeps its storage with malloc/realloc/free is tracked, leak-checked and
+// fault-injected exactly like one that uses new[]/delete[].  The registry itself and operator new use the real functions.
+#ifdef VERIF_WRAP_MALLOC
+extern "C" void *__real_malloc(size_t);
+extern "C" void *__real_calloc(size_t, size_t);
+extern "C" void *__real_realloc(void *, size_t);
+extern "C" void __real_free(void *);
+#define VA_MALLOC __real_malloc
+#define VA_CALLOC __real_calloc
+#define VA_FREE __real_free
+#else
+#define VA_MALLOC malloc
+#define VA_CALLOC calloc
+#define VA_FREE free
+#endif
 
 namespace verif { namespace alloc {
 
@@ -25,9 +45,9 @@ struct Registry {
     static size_t h(void *p) { uint64_t x = (uint64_t)p; x ^= x >> 33; x *= 0xff51afd7ed558ccdull; x ^= x >> 29; return (size_t)x; }
     void grow() {
         size_t ncap = 1024; while (ncap < (live + 1) * 4) ncap *= 2;   // sized by live entries: tombstones are dropped
-        Entry *nt = (Entry *)calloc(ncap, sizeof(Entry));
+        Entry *nt = (Entry *)VA_CALLOC(ncap, sizeof(Entry));
         for (size_t i = 0; i < cap; i++) if (tab[i].p > (void *)1) { size_t j = h(tab[i].p) & (ncap - 1); while (nt[j].p) j = (j + 1) & (ncap - 1); nt[j] = tab[i]; }
-        free(tab); tab = nt; cap = ncap; used = live;
+        VA_FREE(tab); tab = nt; cap = ncap; used = live;
     }
     void add(void *p, size_t n, bool lib) {
         if ((used + 1) * 2 > cap) grow();
@@ -83,7 +103,7 @@ inline void *do_new(size_t n) {
         r.scope_allocs++;
         if (r.fail_at > 0 && ++r.fault_counter == r.fail_at) { r.fault_fired = true; throw std::bad_alloc(); }
     }
-    void *p = malloc(n ? n : 1);
+    void *p = VA_MALLOC(n ? n : 1);
     if (!p) throw std::bad_alloc();
     r.add(p, n, r.lib_depth > 0);
     return p;
@@ -99,9 +119,58 @@ inline void do_delete(void *p) {
         if (r.lib_depth > 0 && !r.error[0]) snprintf(r.error, sizeof r.error, "invalid or double free of %p inside a library call", p);
         if (r.lib_depth > 0) return;
     }
-    free(p);
+    VA_FREE(p);
 }
 }}  // namespace verif::alloc
+
+#ifdef VERIF_WRAP_MALLOC
+// C allocator entry points of this translation unit.  Outside a library call they pass straight through (harness code); inside one they are
+// counted, may be made to fail (return NULL with ENOMEM - the old block of a failed realloc stays valid, as the C standard says), and the
+// blocks are registered as the library's so that ownership and leak checks see them.
+namespace verif { namespace alloc {
+inline bool c_fault(Registry &r, size_t n) {
+    if (n > (1ull << 30)) throw budget_exceeded{"single allocation larger than 1 GiB requested"};
+    if (++r.total_allocs > 1000000) throw budget_exceeded{"more than 10^6 allocations in one case"};
+    r.scope_allocs++;
+    if (r.fail_at > 0 && ++r.fault_counter == r.fail_at) { r.fault_fired = true; errno = ENOMEM; return true; }
+    return false;
+}
+}}
+extern "C" void *__wrap_malloc(size_t n) {
+    verif::alloc::Registry &r = verif::alloc::reg();
+    if (r.lib_depth <= 0) return __real_malloc(n);
+    if (verif::alloc::c_fault(r, n)) return nullptr;
+    void *p = __real_malloc(n ? n : 1);
+    if (p) r.add(p, n, true);
+    return p;
+}
+extern "C" void *__wrap_calloc(size_t a, size_t b) {
+    verif::alloc::Registry &r = verif::alloc::reg();
+    if (r.lib_depth <= 0) return __real_calloc(a, b);
+    if (verif::alloc::c_fault(r, a * b)) return nullptr;
+    void *p = __real_calloc(a ? a : 1, b ? b : 1);
+    if (p) r.add(p, a * b, true);
+    return p;
+}
+extern "C" void *__wrap_realloc(void *old, size_t n) {
+    verif::alloc::Registry &r = verif::alloc::reg();
+    if (r.lib_depth <= 0) { if (old) r.remove(old); return __real_realloc(old, n); }
+    if (verif::alloc::c_fault(r, n)) return nullptr;
+    bool known = !old || r.find(old);
+    if (!known && !r.error[0]) snprintf(r.error, sizeof r.error, "realloc of %p, which is not a live block, inside a library call", old);
+    if (!known) return nullptr;
+    if (old) r.remove(old);
+    void *p = __real_realloc(old, n ? n : 1);
+    if (p) r.add(p, n, true);
+    return p;
+}
+extern "C" void __wrap_free(void *p) {
+    if (!p) return;
+    verif::alloc::Registry &r = verif::alloc::reg();
+    r.remove(p);          // harness blocks allocated outside a library call were never registered: nothing to remove, plain free
+    __real_free(p);
+}
+#endif
 
 void *operator new(size_t n) { return verif::alloc::do_new(n); }
 void *operator new[](size_t n) { return verif::alloc::do_new(n); }
